@@ -95,8 +95,21 @@ theorem parse_nocomma_single (s : List Char) (hc : ',' ∉ s) (k : Key) (h : Key
     · rw [parse_single_eq s hne hc hsp] at h
       exact parseSingle_single s k h
 
+/-- the key of a typed name without comma has one part (a one-character name is looked up as `--c`) -/
+theorem wordKey_nocomma_single (s : List Char) (hc : ',' ∉ s) (k : Key) (h : wordKey s = .ok k) : k.Single := by
+  unfold wordKey at h
+  split at h
+  · refine parse_nocomma_single _ ?_ k h
+    intro hm
+    simp only [List.mem_cons] at hm
+    rcases hm with e | e | e
+    · cases e
+    · cases e
+    · exact hc e
+  · exact parse_nocomma_single _ hc k h
+
 theorem It.Plain.elem {it : It} (h : it.Plain) : ElemPlain it :=
-  ⟨fun _ k hk => parse_nocomma_single _ h.str k hk, h.ctrl⟩
+  ⟨fun _ k hk => wordKey_nocomma_single _ h.str k hk, h.ctrl⟩
 
 theorem getWord_mem {argv : List Word} {i : Nat} {w : Word} (h : getWord argv i = .ok w) : w ∈ argv := by
   unfold getWord at h
